@@ -755,7 +755,7 @@ func genC09(r *Rng, idx int, tier string) *Scenario {
 	gid := dhGroups[idx%2]
 	g := ref.GroupByID(uint16(gid))
 	n := r.Range(3, 10)
-	if idx%1500 == 1498 || idx%1500 == 1499 {
+	if idx%1499 == 1497 || idx%1499 == 1498 {
 		// long-lived process: more than 2^20 operations on one group object, then ordinary steps
 		sc.Steps = append(sc.Steps, Step{Op: "dh_spin", Group: gid, N: 1<<20 + 64 + r.Intn(1000), Y: genPeerBytes(r, g)})
 	}
